@@ -67,11 +67,11 @@ Fixpoint get_matchers (sels : list selector) : list expr * list expr :=
     end
   end.
 
-(* FormatFromDate(ctx.To): the upper date bound also goes through the -30 min shift *)
+(* date >= FormatFromDate(ctx.From) (30 min margin) ; date <= ctx.To.UTC().Format("2006-01-02") *)
 Definition prof_selector (gin_table : string) (from_ns to_ns : Z) (sels : list selector) : select :=
   let '(g, kv) := get_matchers sels in
   let q0 := set_groupby [Id "fingerprint"]
-             (and_where [Ge (Id "date") (DateV (from_day from_ns)); Le (Id "date") (DateV (from_day to_ns))]
+             (and_where [Ge (Id "date") (DateV (from_day from_ns)); Le (Id "date") (DateV (to_ns / (86400 * 1000000000)))]
               (set_from (Id gin_table) (set_cols [Id "fingerprint"] empty_select))) in
   let q1 := match g with [] => q0 | _ => and_where [And g] q0 end in
   match kv with
